@@ -128,7 +128,7 @@ def calls(rng, matrix, tier):
     # macro-only endpoint with the attribute forms (no `name` on path parameters, log_as naming another template parameter)
     for cls in ("plain", "reserved", "unicode"):
         out.append(("attrs", {"b": "ok:" + text_of(cls, rng), "bee": "ok:" + text_of(cls, rng), "sea": rng.choice(INTS), "pq": "ok:" + text_of(cls, rng),
-                              "hh": "ok:" + text_of("plain", rng)}, "r", None))
+                              "hh": "ok:" + text_of("plain", rng), "ls": rng.choice([["a", "", "b"], [""], [], ["", ""], [text_of(cls, rng)]])}, "r", None))
     for n in INTS:
         out.append(("regexPath", {"n": n}, "r", None))      # a path parameter behind a regex segment of the template
     out.append(("names", {"type": 1, "fooBar": UUID, "async": 2, "camelCase": None, "self": 3, "snake_arg": [4, 5], "match": True}, "n", None))
